@@ -201,7 +201,7 @@ def make_path_class(vfs: VFS, opener=None):
 
         def glob(self, pattern, **kw):
             return [type(self)(posixpath.join(str(self), p)) if str(self) != "." else type(self)(p)
-                    for p in vfs.glob(pattern, recursive=True, root_dir=str(self))]
+                    for p in vfs.glob(pattern, recursive=True, root_dir=str(self), include_hidden=True)]      # pathlib matches dot entries
 
         def rglob(self, pattern, **kw):
             return self.glob("**/" + pattern)
